@@ -197,6 +197,15 @@ NdFrame(node, via) == [node |-> node, via |-> via, ph |-> "kids", i |-> 1]
 
 NdInit(tree) == [pc |-> "run", stack |-> <<NdFrame(tree, -1)>>, keys |-> <<>>, seen |-> {}, cls |-> ""]
 
+\* Document::get_dests_dictionary (PDF 1.1 catalog /Dests: names -> destination array, or dictionary with /D; either may
+\* be a reference; anything else is skipped).  Total by construction; yields <<name, page>> entries.
+DestsDictKeys(doc, dd) ==
+    LET entry(p) ==
+            LET v == Deref(doc, p[2])
+                a == IF v.k = "arr" THEN v ELSE IF v.k = "dict" THEN Deref(doc, DGet(v, "D")) ELSE None
+            IN IF a.k = "arr" /\ Len(a.e) >= 2 THEN <<<<p[1], a.e[1]>>>> ELSE <<>>
+    IN FoldLeft(LAMBDA acc, p : acc \o entry(p), <<>>, dd.d)
+
 NdStep(doc, s) ==
     LET top  == s.stack[Len(s.stack)]
         rest == SubSeq(s.stack, 1, Len(s.stack) - 1)
@@ -206,9 +215,10 @@ NdStep(doc, s) ==
         Partial(dev, c) == IF dev THEN Fail("panic", c) ELSE Fail("err", "")
     IN
     IF top.ph = "kids" THEN
-        LET kids == DGet(top.node, "Kids")
-        IN IF kids = None THEN SetTop([top EXCEPT !.ph = "names", !.i = 1])
-           ELSE IF kids.k # "arr" THEN Fail("err", "")                           \* kids.as_array()?
+        LET kraw == DGet(top.node, "Kids")
+            kids == Deref(doc, kraw)                                          \* self.dereference(kids)?.1.as_array()?
+        IN IF kraw = None THEN SetTop([top EXCEPT !.ph = "names", !.i = 1])
+           ELSE IF kids.k # "arr" THEN Fail("err", "")                           \* (None: the reference does not resolve)
            ELSE IF top.i > Len(kids.e) THEN SetTop([top EXCEPT !.ph = "names", !.i = 1])
            ELSE LET kid == kids.e[top.i]
                     adv == [top EXCEPT !.i = top.i + 1]
@@ -226,9 +236,10 @@ NdStep(doc, s) ==
                         ELSE IF kid.n \in s.seen THEN SetTop(adv)                \* repaired: visited set
                              ELSE Call([s EXCEPT !.stack = enter, !.seen = s.seen \cup {kid.n}])
     ELSE
-        LET names == DGet(top.node, "Names")
-        IN IF names = None THEN Pop
-           ELSE IF names.k # "arr" THEN Fail("err", "")                          \* names.as_array()?
+        LET nraw  == DGet(top.node, "Names")
+            names == Deref(doc, nraw)                                         \* self.dereference(names)?.1.as_array()?
+        IN IF nraw = None THEN Pop
+           ELSE IF names.k # "arr" THEN Fail("err", "")
            ELSE IF 2 * top.i > Len(names.e) THEN Pop                             \* key or value missing: break
            ELSE LET key == names.e[2 * top.i - 1]
                     val == names.e[2 * top.i]
@@ -238,8 +249,9 @@ NdStep(doc, s) ==
                         ELSE IF key.k # "str" THEN Partial(Dev_NdKeyStr, "nameddest.key.notstring")
                         ELSE [adv EXCEPT !.keys = Append(s.keys, <<key.s, a.e[1]>>)]
                     FromDict(dd) ==        \* dict.get(b"D").as_ref().unwrap().as_array()?
-                        LET D == DGet(dd, "D")
-                        IN IF D = None THEN Partial(Dev_NdUnwrapD, "nameddest.D.absent")
+                        LET Draw == DGet(dd, "D")
+                            D    == Deref(doc, Draw)                          \* self.dereference(dict.get(b"D")?)?.1.as_array()?
+                        IN IF Draw = None THEN Partial(Dev_NdUnwrapD, "nameddest.D.absent")
                            ELSE IF D.k # "arr" THEN Fail("err", "")
                            ELSE FromArr(D)
                 IN IF val.k = "ref" THEN
@@ -341,7 +353,7 @@ BuildOutlineResult(doc, dest0, title, keys) ==
                 THEN IF Dev_DestIndex THEN OlRes("panic", None, None, "outline.dest.short")
                                       ELSE OlRes("err", None, None, "")
                 ELSE OlRes("some", title, dest.e[1], "")
-       ELSE IF dest.k = "str" THEN
+       ELSE IF dest.k \in {"str", "name"} THEN                              \* Object::String(key, _) | Object::Name(key)
                 IF hits = {} THEN OlRes("none", None, None, "")
                 ELSE OlRes("some", title, keys[CHOOSE i \in hits : \A j \in hits : j <= i][2], "")
        ELSE OlRes("err", None, None, "")
@@ -380,12 +392,14 @@ OutInit(doc) ==
         dn0  == IF cat = None THEN None ELSE GetDictInDict(doc, cat, "Outlines")
         f    == IF dn0 = None THEN None ELSE GetDictInDict(doc, dn0, "First")
         dn   == IF f # None THEN f ELSE dn0
-        t1   == GetDictInDict(doc, cat, "Dests")
-        nm   == GetDictInDict(doc, cat, "Names")
-        tree == IF t1 # None THEN t1 ELSE IF nm # None THEN GetDictInDict(doc, nm, "Dests") ELSE None
-        base == [pc |-> "run", nd |-> NdInit(None), stack |-> <<>>, dests |-> <<>>, seen |-> {}, cls |-> "", i |-> 1]
+        t1   == GetDictInDict(doc, cat, "Dests")                          \* PDF 1.1: a dictionary of destinations
+        k0   == IF t1 # None THEN DestsDictKeys(doc, t1) ELSE <<>>
+        nm   == GetDictInDict(doc, cat, "Names")                          \* PDF 1.2: the name tree Names/Dests
+        tree == IF nm # None THEN GetDictInDict(doc, nm, "Dests") ELSE None
+        base == [pc |-> "run", nd |-> [NdInit(None) EXCEPT !.keys = k0], stack |-> <<>>, dests |-> <<>>, seen |-> {},
+                 cls |-> "", i |-> 1]
     IN IF cat = None \/ dn0 = None THEN [base EXCEPT !.pc = "err"]
-       ELSE IF tree # None THEN [base EXCEPT !.pc = "nd", !.nd = NdInit(tree), !.stack = <<OlFrame(dn, -1)>>]
+       ELSE IF tree # None THEN [base EXCEPT !.pc = "nd", !.nd = [NdInit(tree) EXCEPT !.keys = k0], !.stack = <<OlFrame(dn, -1)>>]
        ELSE [base EXCEPT !.stack = <<OlFrame(dn, -1)>>]
 
 OutStep(doc, s) ==
